@@ -69,6 +69,9 @@ def make_cfg(name, seed=0, width="narrow", copies=True, moves=True, req=False, r
         kinds = ["void1", "void2", "void7e", "int8_127", "uint8_127", "bytes7f", "empty", "str"]
         ops += [["setv", p, "abs", kd] for p in paths[:2] for kd in kinds]
         ops += [["sav", n, keys[0], kd] for n in nodes[:2] for kd in kinds[:6]]
+        # the reserved value itself, in three spellings: must be refused loudly and leave no trace
+        ops += [["setv", paths[0], "abs", kd] for kd in h5ops.MARKER_KINDS]
+        ops += [["sav", "/", keys[0], kd] for kd in h5ops.MARKER_KINDS]
     if relcm:
         # copy/move issued on a sub-group with source and destination both relative to it
         par = paths[0]
@@ -81,6 +84,7 @@ def make_cfg(name, seed=0, width="narrow", copies=True, moves=True, req=False, r
         for r in routes:
             ops += [["rg", p, r] for p in paths]
             ops += [["rd", p, r] for p in paths]
+        ops += [["rdm", paths[0], routes[0], how] for how in ("shape", "dtype", "exact")]
     if copies:
         for r in routes:
             ops += [["cp", s, d, r] for s in paths for d in paths + extra_dst if s != d]
@@ -112,6 +116,9 @@ def _apply(obj, op, n, is_impl):
             with env.watchdog(env.step_timeout()):
                 h5ops.apply_op(obj, op, n)
         else:
+            if op[0] in ("setv", "sav") and op[3] in h5ops.MARKER_KINDS:
+                # reference side of the documented exception: the reserved value is refused, nothing changes
+                raise ValueError("reserved value")
             if op[0] in ("cp", "mv") and op[3] == "rel":
                 # libhdf5 quirk (not tree semantics): H5Ocopy from a non-root location to an
                 # absolute destination below that location fails with "message type not found";
